@@ -30,4 +30,4 @@ package explorer
 //@   property C29
 //@   overflow: assumed
 //@   modifies *
-//@   ensures[a_stored_name_with_three_or_more_parts_is_listed] err == nil && calls("FileReader.GetSwampName") == old(calls("FileReader.GetSwampName")) + 1 && calls("FileReader.ReadAllEntries") == old(calls("FileReader.ReadAllEntries")) && U_sepcount(lastret("FileReader.GetSwampName"), "/") >= 2 ==> detail != nil
+//@   ensures[a_stored_name_with_three_or_more_parts_is_listed] err == nil && calls("NewFileReader") == old(calls("NewFileReader")) + 1 && calls("FileReader.ReadAllEntries") == old(calls("FileReader.ReadAllEntries")) && U_sepcount(lastret("NewFileReader").swampName, "/") >= 2 ==> detail != nil
